@@ -653,6 +653,11 @@ class LiteralUnmarshaller(AbstractUnmarshaller[LiteralT], tp.Generic[LiteralT]):
     def __call__(self, val: tp.Any) -> LiteralT:
         if val in self.values:
             return val
+        # The text itself may be a member (`Literal["1", 1]`): `bytes` and the other
+        #   text carriers must then agree with what the same text gives as `str`.
+        text = serdes.decode(val)
+        if text is not val and text in self.values:
+            return text
         decoded = serdes.load(val)
         if decoded in self.values:
             return decoded  # type: ignore[return-value]
